@@ -126,8 +126,73 @@ func reasonClass(s string) string {
 	return kit.Short(s, 50)
 }
 
+// countdownCtx is a receive context whose deadline "fires" at a chosen point of the handler: Err()
+// answers nil for the first k calls and DeadlineExceeded from then on (Done is closed at that moment).
+// k = 0 is a context that has already expired when the handler starts.
+type countdownCtx struct {
+	context.Context
+	mu   sync.Mutex
+	left int
+	done chan struct{}
+	shut bool
+}
+
+func newCountdownCtx(parent context.Context, k int) *countdownCtx {
+	c := &countdownCtx{Context: parent, left: k, done: make(chan struct{})}
+	if k == 0 {
+		c.shut = true
+		close(c.done)
+	}
+
+	return c
+}
+
+func (c *countdownCtx) Err() error {
+	c.mu.Lock()
+	defer c.mu.Unlock()
+	if c.left > 0 {
+		c.left--
+		return nil
+	}
+	if !c.shut {
+		c.shut = true
+		close(c.done)
+	}
+
+	return context.DeadlineExceeded
+}
+
+func (c *countdownCtx) Done() <-chan struct{} { return c.done }
+
+// injectExpiring hands w to the handler under a receive context that expires after k liveness checks.
+func (in *injector) injectExpiring(from int, w *pbv1.QBFTConsensusMsg, k int) outcome {
+	nd := in.target()
+	err := nd.cons.VerifHandle(newCountdownCtx(nd.ctx, k), in.e.ids[from], w)
+	in.r.Count("injections", 1)
+	if err == nil {
+		nd.admitted++
+		return outcome{true, ""}
+	}
+
+	return outcome{false, "handler: " + err.Error()}
+}
+
 // mustReject: the injected message violates the statement ⇒ it has to be rejected.
 func (in *injector) mustReject(class, path string, from int, w *pbv1.QBFTConsensusMsg, baseName string) {
+	// A sample is also delivered while the stream's receive deadline fires somewhere inside the handler
+	// (or has fired already): whatever the context does, the message must not be admitted.
+	if in.rng.Intn(6) == 0 {
+		for try := 0; try < 2; try++ {
+			k := in.rng.Intn(2 + 2*len(w.GetJustification()))
+			in.r.Count("must_reject_under_expiring_receive_context", 1)
+			if o := in.injectExpiring(from, w, k); o.Admitted {
+				in.c.Violation("consensus/admitted/"+class+"/"+pathClass(path)+"/receive-context-expired-inside-handler",
+					fmt.Sprintf("a %s message altered by %s at %s was admitted by the receive handler although (and while) its receive context expired after %d liveness checks", baseName, class, path, k),
+					map[string]any{"base": baseName, "class": class, "path": path, "liveness_checks_before_expiry": k, "msg": protoText(w)})
+				return
+			}
+		}
+	}
 	o := in.inject(from, w)
 	in.r.Count("must_reject/"+class, 1)
 	if o.Admitted {
